@@ -113,12 +113,13 @@ package reverse
 //@ func (call).Value
 //@   flag typeassert=panic
 //@ func (*Provider).process
-//@   prop C11
+//@   prop C11 C09
 //@   nopanic
 //@   havoc
 //@   flag typeassert=panic
 //@   flag bounds=panic
 //@   modifies ghost.*
+//@   ensures [answers_under_the_number_of_the_call] typeis(c[0], int) ==> typeis(rv[0], int) && ival(rv[0]) == ival(c[0])
 
 // dispatch: one goroutine per call of a batch (a root: nothing may escape it)
 //@ func (*Provider).dispatch$1
